@@ -73,3 +73,127 @@ def gen(rng, tier):
         for _ in range(n):
             hist.append([rng.choice(base) for _ in range(rng.randint(4, 10))])
     return hist
+
+
+# ---------------------------------------------------------------------------------------------------------------------------
+# the cache as the diffusion models use it (DiffCache_Trace.tla)
+class _DTherm:
+    """scripted single-phase thermodynamics: D is an injective function of (x, T); every call is logged"""
+    def __init__(self, log, nsol):
+        self.log, self.nsol = log, nsol
+
+    def clearCache(self):
+        pass
+
+    def getInterdiffusivity(self, x, T, removeCache=True, phase=None):
+        x = np.atleast_1d(np.asarray(x, dtype=float))
+        self.log.append(("call", [float(v) for v in x], float(T)))
+        base = 1e-12 * (1.0 + float(np.sum(x * np.arange(1, len(x) + 1))) + float(T) / 1000.0)
+        return base if self.nsol == 1 else base * (np.eye(self.nsol) + 0.1)
+
+
+XVALS = [(25, 2), (125, 3), (5, 1), (375, 3)]            # 0.25, 0.125, 0.5, 0.375
+TVALS = [(1000, 0), (10005, 1), (1200, 0), (100, 0)]
+
+
+def dec(d):
+    return [d[0], d[1]]
+
+
+def model_history(ops, nsol=1, N=5):
+    """ops: control operations on the model's cache (useCache / setHashSensitivity / clearCache) and flux evaluations
+    {"e": "eval", "x": [index into XVALS per node], "T": [index into TVALS per node]}"""
+    from kawin.diffusion import SinglePhaseModel
+    log = []
+    els = ["A", "B", "C"][:nsol + 1]
+    m = SinglePhaseModel([0.0, 1.0], N, els, ["PH"], thermodynamics=_DTherm(log, nsol))
+    for e in els[1:]:
+        m.setCompositionLinear(0.1, 0.1, e)
+    m.setTemperature(1000)
+    m.setup()
+    h = m.hashTable
+    oget, oadd = h.retrieveFromHashTable, h.addToHashTable
+    ids = {}
+
+    def key(v):
+        return np.asarray(v, dtype=float).tobytes()
+
+    def get(x, T):
+        r = oget(x, T)
+        log.append(("get", [float(v) for v in np.atleast_1d(x)], float(T), None if r is None else ids.get(key(r), -1)))
+        return r
+
+    def add(x, T, value):
+        oadd(x, T, value)
+        if h._cache:       # the identity of a stored value is the ordinal of the add that stored it (adds while switched off store nothing)
+            ids[key(value)] = len([1 for e in log if e[0] == "add"]) + 1
+        log.append(("add", [float(v) for v in np.atleast_1d(x)], float(T), len(h.cachedData)))
+    h.retrieveFromHashTable, h.addToHashTable = get, add
+    ev = [{"e": "init"}]
+    vmap = {val(d): d for d in XVALS}
+    tmap = {val(d): d for d in TVALS}
+
+    def point(x, T):
+        try:
+            return [dec(vmap[v]) for v in x] + [dec(tmap[T])]
+        except KeyError:
+            return [[-1, 0]]
+    try:
+        for op in ops:
+            k = op["e"]
+            if k == "enable":
+                m.useCache(op["b"]); ev.append({"e": "enable", "b": op["b"]})
+            elif k == "sens":
+                m.setHashSensitivity(op["s"]); ev.append({"e": "sens", "s": op["s"]})
+            elif k == "clear":
+                m.clearCache(); ev.append({"e": "clear"})
+            else:
+                xi, ti = op["x"], op["T"]
+                x = np.array([[val(XVALS[j]) for j in xi]])
+                if nsol > 1:       # second solute: another value of the decimal alphabet, sum below one
+                    x = np.array([[val(XVALS[j]) for j in xi], [val(XVALS[(j + 1) % 2]) for j in xi]])
+                Tn = np.array([val(TVALS[j]) for j in ti])
+                m.setTemperatureFunction(lambda z, t, Tn=Tn: Tn)
+                pts = [point(list(x[:, i]), float(Tn[i])) for i in range(N)]
+                ev.append({"e": "eval", "pts": pts})
+                n0 = len(log)
+                m.getdXdt(0.0, [x])
+                for entry in log[n0:]:
+                    if entry[0] == "get":
+                        ev.append({"e": "get", "p": point(entry[1], entry[2]), "hit": entry[3] is not None, "v": entry[3] if entry[3] is not None else 0})
+                    elif entry[0] == "call":
+                        ev.append({"e": "call", "p": point(entry[1], entry[2])})
+                    else:
+                        ev.append({"e": "add", "p": point(entry[1], entry[2]), "size": entry[3]})
+                ev.append({"e": "evalend"})
+    except Exception as ex:  # noqa
+        ev.append({"e": "exception", "msg": "%s: %s" % (type(ex).__name__, str(ex)[:200])})
+    return ev
+
+
+def gen_model(rng, tier, N=5):
+    """flux evaluations on profiles with flat stretches under per-node temperatures, interleaved with cache controls"""
+    hist = []
+    ctl = [{"e": "enable", "b": False}, {"e": "enable", "b": True}, {"e": "clear"}, {"e": "sens", "s": 2}, {"e": "sens", "s": 3}, {"e": "sens", "s": 7}]
+
+    def ev(flat, tpat):
+        if flat == "flat": xi = [0] * N
+        elif flat == "step": xi = [0] * (N // 2) + [2] * (N - N // 2)
+        elif flat == "ends": xi = [1] + [0] * (N - 2) + [3]
+        else: xi = [rng.randrange(len(XVALS)) for _ in range(N)]
+        if tpat == "iso": ti = [0] * N
+        elif tpat == "gradient": ti = [i % len(TVALS) for i in range(N)]
+        elif tpat == "close": ti = [0, 1] * N
+        else: ti = [rng.randrange(len(TVALS)) for _ in range(N)]
+        return {"e": "eval", "x": xi[:N], "T": ti[:N]}
+    pats = [(f, t) for f in ("flat", "step", "ends", "rand") for t in ("iso", "gradient", "close", "rand")]
+    for (f, t) in pats:
+        for c in [None] + ctl:
+            hist.append(([c] if c else []) + [ev(f, t), ev(f, t)])
+            hist.append([ev(f, t)] + ([c] if c else []) + [ev(f, "gradient"), ev("step", t)])
+    for _ in range(60 if tier == "quick" else 600):
+        seq = []
+        for _ in range(rng.randint(3, 6)):
+            seq.append(rng.choice(ctl) if rng.random() < 0.35 else ev(*rng.choice(pats)))
+        hist.append(seq)
+    return hist
